@@ -46,7 +46,8 @@ def World.dump (w : World) : String :=
   let acc := sortDedup (w.access.map Addr.name)
   let stakes := sortDedup ((dedupAddrs (w.stake.map (·.1))).map (fun a => a.name ++ "=" ++ toString (w.getStake a)))
   "A[" ++ joinWith ";" accts ++ "] B[" ++ joinWith ";" bals ++ "] L[" ++ joinWith ";" logs
-    ++ "] M[" ++ joinWith ";" stakes ++ "] T[" ++ joinWith ";" trans ++ "] X[" ++ joinWith ";" acc ++ "]"
+    ++ "] M[" ++ joinWith ";" stakes ++ "] T[" ++ joinWith ";" trans ++ "] X[" ++ joinWith ";" acc
+    ++ "] F=" ++ toString w.refund
 
 /-- end-of-block answer of the real block loop stream: all logs, transient storage, access list -/
 def World.dumpScratch (w : World) : String :=
